@@ -23,7 +23,12 @@ import (
 func writeFasta(path string, ts []tmpl, width int) error {
 	var b bytes.Buffer
 	for _, t := range ts {
-		fmt.Fprintf(&b, ">%s\n", t.ID)
+		if t.Ann != nil {
+			ja, _ := json.Marshal(t.Ann)
+			fmt.Fprintf(&b, ">%s %s\n", t.ID, ja)
+		} else {
+			fmt.Fprintf(&b, ">%s\n", t.ID)
+		}
 		if width <= 0 {
 			b.WriteString(t.Seq)
 			b.WriteByte('\n')
